@@ -28,6 +28,7 @@ type FuncResult struct {
 	Secs     float64
 	Trusted  bool
 	Lines    int
+	G        *Gen // first path variant (replay of candidate models)
 }
 
 func (P *Program) newGen(fn *ssa.Function, ct *Contract, tier string) *Gen {
@@ -625,6 +626,7 @@ func (P *Program) verify(key string, tier string, timeoutS int) *FuncResult {
 		}
 	}
 	res.Obls = first.obls
+	res.G = first
 	res.Lines = len(first.lines)
 	res.Secs = time.Since(t0).Seconds()
 	return res
@@ -755,6 +757,14 @@ func main() {
 		for _, k := range ks {
 			r := P.verify(k, *tier, *timeout)
 			bad += printFuncResult(r, *verbose)
+			if *dump {
+				for _, ob := range r.Obls {
+					if ob.Kind != "cover" && ob.Status != "unsat" {
+						path := filepath.Join(workDir, "replay-"+safeName(ob.Name)+".txt")
+						fmt.Printf("replay %s -> %s (%s)\n", ob.Name, P.replay(r, ob, path), path)
+					}
+				}
+			}
 		}
 		_ = dump
 		fmt.Printf("load %.1fs total %.1fs\n", loadSecs, time.Since(t0).Seconds())
